@@ -324,6 +324,12 @@ void zzDivMod(word b[], const word divident[], const word a[],
 	ASSERT(wwCmp(divident, mod, n) < 0);
 	ASSERT(wwIsDisjoint(b, mod, n));
 	ASSERT(zzIsOdd(mod, n) && mod[n - 1] != 0);
+	// a == 0 => gcd(a, mod) == mod != 1 => b <- 0
+	if (wwIsZero(a, n))
+	{
+		wwSetZero(b, n);
+		return;
+	}
 	// da <- divident, da1 <- 0
 	wwCopy(da, divident, n);
 	wwSetZero(da1, n);
